@@ -246,8 +246,11 @@ func genCaseFor(p Profile) func(t *rapid.T) Case {
 			c.Cfg.CsCap = rapid.SampledFrom([]int{0, 1, 2, 8, 64, 64, 64}).Draw(t, "cscap")
 		}
 		c.Cfg.DnlMs = rapid.SampledFrom([]int64{100, 1000, 6000}).Draw(t, "dnl")
-		if rapid.IntRange(0, 3).Draw(t, "region") == 0 {
+		switch rapid.IntRange(0, 5).Draw(t, "region") {
+		case 0, 1:
 			c.Cfg.Regions = []string{"/a/b"}
+		case 2:
+			c.Cfg.Regions = []string{"/b", "/c/a"}
 		}
 		// initial routes and strategy choices
 		initNames := []string{"/", "/a", "/a", "/a/b", "/b", "/localhost", "/localhost/a", "/a/a"}
@@ -330,10 +333,15 @@ func genCaseFor(p Profile) func(t *rapid.T) Case {
 				}
 				if hintKey != "" {
 					op.Hints = []string{hintKey}
-				} else if r.E%12 == 0 {
-					op.Hints = []string{[]string{"/a", "/b", "/a/b/c", "/c/a"}[r.D%4]}
-					if r.D%7 == 0 {
-						op.Hints = append(op.Hints, "/b/b")
+				} else if r.E%9 == 0 {
+					// 1..3 delegations in any order, some inside the producer region
+					pool := []string{"/a", "/b", "/a/b/c", "/c/a", "/a/b", "/b/b", "/c"}
+					op.Hints = []string{pool[r.D%len(pool)]}
+					if r.D%3 != 0 {
+						op.Hints = append(op.Hints, pool[(r.D/7)%len(pool)])
+					}
+					if r.D%5 == 0 {
+						op.Hints = append(op.Hints, pool[(r.D/49)%len(pool)])
 					}
 				}
 				// lifetime
